@@ -359,3 +359,23 @@ Proof. intros e []. Qed.
 
 Lemma nodes_ok_st0 : nodes_ok st0.
 Proof. intros id. cbn. split; [constructor|exact I]. Qed.
+
+(* ---------- C03, propagation clause ---------- *)
+(* after a node point write the hash of each edge changes by exactly the content delta d when the
+   upward recursion visits the edge an odd number of times (once per upward path from the node
+   ending in that edge), and not at all when it visits it an even number of times *)
+Theorem node_write_hash_change st id pts st' :
+  node_points st id pts = Ok st' ->
+  let d := N.lxor (xor_crcs (node_rows (s_nodes st) id)) (xor_crcs (node_rows (s_nodes st') id)) in
+  map e_hash (s_edges st') =
+  map (fun e => N.lxor (e_hash e)
+                  (if Nat.odd (cnt (e_id e) (visits (s_edges st) (fuel_of (s_edges st)) id)) then d else 0))
+      (s_edges st).
+Proof.
+  unfold node_points. destruct (has_nan pts); [discriminate|].
+  destruct (merge_batch false (node_rows (s_nodes st) id) (collapse pts)) as [rows d0] eqn:EM.
+  intros E. inversion E; subst st'; clear E. cbn [s_nodes s_edges].
+  pose proof (merge_batch_snd false (node_rows (s_nodes st) id) (collapse pts)) as Hd. rewrite EM in Hd. cbn [fst snd] in Hd.
+  rewrite node_rows_set_same, <- Hd. unfold update_hash. rewrite map_map. apply map_ext. intros e.
+  rewrite toggle_hash. unfold GraphCount.tog, GraphCount.par, cnt, GraphCount.cnt. reflexivity.
+Qed.
